@@ -1,7 +1,7 @@
 SPECIFICATION TraceSpec
 CONSTANTS FallbackMode = "free"
  FailFast = FALSE
- CancelMode = "either"
+ CancelMode = "prompt"
  WaitMode = "none"
  NotSyncedAs = "unavail"
 CONSTRAINT Mark
